@@ -58,3 +58,41 @@ def keys_of_emptied_lists_not_memoised():
     if not seen:
         return False, f"anchor lost: no method obtains keys of {sorted(emptied)}", 0
     return (not bad), (bad[:3] or f"methods obtaining keys of {sorted(emptied)} are not memoised"), seen
+
+
+def allocators_are_not_memoised():
+    """model.py / containers.py: a method that hands out the NEXT identifier (its name starts with next_ or new_) computes it from the
+    current state of the document; memoised, it hands out the same identifier again - two images with one data identifier, two objects
+    with one message identifier"""
+    import ast as _ast
+    from pyvc import extract as _ex
+    bad, n = [], 0
+    for mod in ("model.py", "containers.py"):
+        tree = _ast.parse(open(os.path.join(_ex.SRC, mod)).read())
+        for fn in [x for x in _ast.walk(tree) if isinstance(x, _ast.FunctionDef) and x.name.startswith(("next_", "new_"))]:
+            n += 1
+            if any("cache" in _ast.unparse(d) for d in fn.decorator_list):
+                bad.append(f"{mod}:{fn.name} is memoised: every call after the first returns the identifier handed out first")
+    if n == 0:
+        return False, "anchor lost: no next_* / new_* allocator found", 0
+    return (not bad), (bad[:3] or f"{n} allocators, none memoised"), n
+
+
+def decoded_cells_always_look_up_their_merge_state():
+    """cell.py: every cell decoded from storage - whatever it holds - gets its merge state from the table's merge map for its own position:
+    the call is not under a condition (a blank top-left cell of a merged rectangle is still its anchor)"""
+    import ast as _ast
+    from pyvc import extract as _ex
+    tree = _ast.parse(open(os.path.join(_ex.SRC, "cell.py")).read())
+    fn = next((x for x in _ast.walk(tree) if isinstance(x, _ast.FunctionDef) and x.name == "_from_storage"), None)
+    if fn is None:
+        return False, "anchor lost: Cell._from_storage", 0
+    top = [s for s in fn.body if isinstance(s, _ast.Expr) and isinstance(s.value, _ast.Call) and _ast.unparse(s.value.func).endswith("._set_merge")]
+    every = [c for c in _ast.walk(fn) if isinstance(c, _ast.Call) and _ast.unparse(c.func).endswith("._set_merge")]
+    if not every:
+        return False, "anchor lost: _from_storage no longer sets the merge state", 0
+    ok = len(top) == 1 and len(every) == 1 and "merge_cells" in _ast.unparse(top[0].value.args[0]) and "(row, col)" in _ast.unparse(top[0].value.args[0])
+    if ok:
+        return True, "one unconditional _set_merge(<merge map>.get((row, col)))", 1
+    return False, [f"L{every[0].lineno}: the merge state of a decoded cell is set under a condition or not from the merge map entry of (row, col): "
+                   f"{[_ast.unparse(c)[:70] for c in every]}"], 1
